@@ -900,7 +900,18 @@ func (env *Zlisp) Apply(fun *SexpFunction, args []Sexp) (Sexp, error) {
 		// selector argument); when it fails in there, the VM is
 		// still inside the aborted call. Put it back, as for a
 		// compiled function below.
-		res, err := fun.userfun(env, fun.name, args)
+		// The call is made under a recover, like the one in
+		// CallUserFunction: the generator applies Go macros from
+		// here at compile time, outside any other barrier.
+		res, err := func() (res Sexp, err error) {
+			defer func() {
+				if recovered := recover(); recovered != nil {
+					res = SexpNull
+					err = fmt.Errorf("Apply caught panic during call of '%s': '%v'", fun.name, recovered)
+				}
+			}()
+			return fun.userfun(env, fun.name, args)
+		}()
 		if err != nil {
 			env.restoreControlState(callState)
 			return SexpNull, err
